@@ -137,9 +137,8 @@ Section Proofs.
   Lemma kth_reply_last fs f :
     Forall wf (fs ++ [f]) -> kth_reply (concat fs ++ f) (length fs) = Some (reply_of f).
   Proof.
-    intros H. unfold ClientConcModel.kth_reply. rewrite <- concat_snoc, (decode_concat _ H), map_app.
-    rewrite nth_error_app2 by (rewrite map_length; lia).
-    rewrite map_length, Nat.sub_diag. reflexivity.
+    intros H. unfold ClientConcModel.kth_reply. rewrite <- concat_snoc, (decode_concat _ H).
+    rewrite nth_error_app2 by lia. rewrite Nat.sub_diag. reflexivity.
   Qed.
 
   Ltac per_thread H i :=
